@@ -73,7 +73,14 @@ func newVectorAccumulator(expr parser.ItemType) (vectorAccumulator, error) {
 	t := parser.ItemTypeStr[expr]
 	switch t {
 	case "sum":
-		return floats.Sum, nil
+		return func(in []float64) float64 {
+			// Start from the first sample, not from +0, so that a sum of -0 stays -0.
+			sum := in[0]
+			for _, v := range in[1:] {
+				sum += v
+			}
+			return sum
+		}, nil
 	case "max":
 		return floats.Max, nil
 	case "min":
